@@ -63,7 +63,7 @@ NoId == [f |-> 0, p |-> <<>>]
 St0(v, ins) == [v |-> v, id |-> NoId, P |-> <<>>, W |-> JNull, pm |-> FALSE, f |-> 0, ins |-> ins, side |-> <<>>, alt |-> FALSE]
 Fresh(st, v) == [st EXCEPT !.v = v, !.id = NoId]
 NP(st) == [st EXCEPT !.pm = FALSE, !.id = NoId]                 \* sub-expression evaluated outside path tracking
-Back(st, s) == [st EXCEPT !.ins = s.ins, !.side = s.side]       \* keep st's path context, take the effects of s
+Back(st, s) == [st EXCEPT !.ins = s.ins, !.side = s.side, !.alt = st.alt \/ s.alt]       \* keep st's path context, take the effects of s (a live alternative stays live)
 OutV(s) == [k |-> "v", s |-> s]
 Opaque == [t |-> "opaque"]
 ErrB(st) == [k |-> "e", u |-> FALSE, v |-> Opaque, s |-> st]      \* built-in error, message not modelled
@@ -706,7 +706,7 @@ Reduce(r, st, env) ==
             genEff == \E j \in 1 .. Len(items) : Eff(items[j].s) # Eff(base)
             RECURSIVE G(_, _)
             G(j, acc) ==      \* acc: state carrying the accumulator value and the effects so far
-                IF j > Len(items) THEN <<OutV(acc)>>
+                IF j > Len(items) THEN <<OutV([acc EXCEPT !.alt = st.alt])>>
                 ELSE LET cur == IF genEff THEN Back(acc, items[j].s) ELSE acc IN
                      IF IsN(items[j]) THEN G(j + 1, cur)
                      ELSE IF ~IsV(items[j]) THEN <<[items[j] EXCEPT !.s = Back(items[j].s, cur)]>>
@@ -789,7 +789,7 @@ EvalBase(t, st, env) ==
             IF ~HasF(t.array, "query") THEN <<OutV(Fresh(st, JArr(<<>>)))>>
             ELSE LET os == Eval(t.array.query, st, env) IN
                  IF Ended(os) THEN <<[os[Len(os)] EXCEPT !.s = Back(st, os[Len(os)].s)]>>
-                 ELSE LET vs == Vals(os) IN <<OutV(Fresh(Back(st, LastSt(os, st)), JArr([i \in 1 .. Len(vs) |-> vs[i].s.v])))>>          \* the generator is exhausted: st.alt as on entry
+                 ELSE LET vs == Vals(os) IN <<OutV([Fresh(Back(st, LastSt(os, st)), JArr([i \in 1 .. Len(vs) |-> vs[i].s.v])) EXCEPT !.alt = st.alt])>>          \* the generator is exhausted: st.alt as on entry
       [] ty = "TermTypeUnary" ->
             LET u == t.unary.term IN
             IF u.type = "TermTypeNumber" /\ ~HasF(u, "suffix_list") THEN
